@@ -1,9 +1,9 @@
 SPECIFICATION Spec
 CONSTANTS
   Plugins = {"p1", "p2"}
-  HsFaults = {"ok", "nofeature", "wrongname", "wrongversion", "exception", "garbage", "trunc", "exitbefore", "exitafter"}
-  GenFaults = {"ok", "exception", "garbage", "trunc", "exit", "dotdot", "samepath"}
-  ByeFaults = {"ok", "noreply", "garbage"}
+  HsFaults = {"ok", "nofeature", "garbageflood"}
+  GenFaults = {"ok", "exception"}
+  ByeFaults = {"ok", "flood"}
   NamesGoodbyeFailure = TRUE
   DetachesStdout = TRUE
 INVARIANTS GenerateOnlyAfterGoodHandshake ExactlyOneGoodbye GoodbyeIsLast AllClosedAllReaped ExitCodeIffFailure FailureNamesPlugin OnlyFailingPluginsNamed WriteOnlyOnSuccess ProtocolAutomaton SentIsScriptDetermined NeverStuck
